@@ -111,7 +111,7 @@ def generate(pid, repo=REPO):
 
 
 
-def run(pid, lane, sample, rseed, scale, jobs):
+def run(pid, lane, sample, rseed, scale, jobs, only_survivors=False):
     sys.path.insert(0, "/verif/tools")
     import importlib.util
     spec = importlib.util.spec_from_file_location("automut", "/verif/tools/automut.py")
@@ -122,10 +122,19 @@ def run(pid, lane, sample, rseed, scale, jobs):
     muts = generate(pid)
     logp = os.path.join(OUT, "%s-c.jsonl" % pid)
     done = set()
+    surv = set()
     if os.path.exists(logp):
         for l in open(logp):
             r = json.loads(l)
             done.add((r["file"], r["line"], r["k"]))
+            if r["rc"] == 0:
+                surv.add((r["file"], r["line"], r["k"]))
+            else:
+                surv.discard((r["file"], r["line"], r["k"]))
+    if only_survivors:
+        muts = [m for m in muts if (m["file"], m["line"], m["k"]) in surv]
+        done = set()
+        sample = len(muts)
     rnd = random.Random(rseed)
     byl = {}
     for m in muts:
@@ -185,9 +194,12 @@ def run(pid, lane, sample, rseed, scale, jobs):
 
 def survivors(pid):
     logp = os.path.join(OUT, "%s-c.jsonl" % pid)
-    n = k = 0
+    last = {}
     for l in open(logp):
         r = json.loads(l)
+        last[(r["file"], r["line"], r["k"])] = r
+    n = k = 0
+    for r in last.values():
         n += 1
         if r["rc"] == 0:
             k += 1
@@ -204,6 +216,7 @@ if __name__ == "__main__":
     ap.add_argument("--rseed", type=int, default=1)
     ap.add_argument("--scale", type=float, default=0.3)
     ap.add_argument("--jobs", type=int, default=3)
+    ap.add_argument("--only-survivors", action="store_true")
     a = ap.parse_args()
     if a.cmd == "count":
         ms = generate(a.pid)
@@ -211,6 +224,6 @@ if __name__ == "__main__":
         for m in ms[:6]:
             print("  ", m["pyx"], m["line"], m["old"], "->", m["new"], "x%d" % len(m["edits"]), "|", m["c_text"][:100])
     elif a.cmd == "run":
-        run(a.pid, a.lane, a.sample, a.rseed, a.scale, a.jobs)
+        run(a.pid, a.lane, a.sample, a.rseed, a.scale, a.jobs, a.only_survivors)
     else:
         survivors(a.pid)
